@@ -185,11 +185,30 @@ def check_case(case):
             self.serial = ninit[0]
             self.args = (a, k)
 
-    CL = [P, Q, R, T, N, Y, Z, M]
-    names = "PQRTNYZM"
+    class F(metaclass=S.TrueSingleton):
+        """A dispatching __new__ (the pathlib.Path idiom): F(...) yields an instance of the implementation subclass F2,
+        which is an instance of F all the same."""
+
+        def __new__(cls, *a, **k):
+            return object.__new__(F2 if cls is F else cls)
+
+        def __init__(self, *a, **k):
+            ninit[0] += 1
+            self.serial = ninit[0]
+            self.args = (a, k)
+
+    class F2(F):
+        pass
+
+    CL = [P, Q, R, T, N, Y, Z, M, F]
+    names = "PQRTNYZMF"
 
     def sel(ci):
-        return 7 if ci >= 10 else ci % 7
+        return 8 if ci == 11 else (7 if ci >= 10 else ci % 7)
+
+    def is_a(o, c):
+        """'its instance': exactly of that class - or, for F, of the implementation subclass its __new__ chose"""
+        return type(o) is c or (c is F and isinstance(o, F))
     model = {}          # class -> (serial, args)
     cleared_since = {}
     nt_a = nt_b = False
@@ -220,7 +239,7 @@ def check_case(case):
                 for c, (serial, args) in model.items():
                     n0 = ninit[0]
                     o = c()
-                    ok = getattr(o, "serial", None) == serial and ninit[0] == n0 and type(o) is c
+                    ok = getattr(o, "serial", None) == serial and ninit[0] == n0 and is_a(o, c)
                     del o
                     require(ok, "other-class-instance-lost", f"{where}: defining (and using) another class called P replaced or re-initialised the live instance of {c.__name__}")
                 continue
@@ -269,12 +288,12 @@ def check_case(case):
                     require(o.inner_serial == model[R][0], "second-instance-created", f"{where}: N.__init__ got another R (serial {o.inner_serial}) than the live one ({model[R][0]})")
                     classes.add("nested-construction-hit")
                 if c in model:
-                    require(getattr(o, "serial", None) == model[c][0] and type(o) is c, "second-instance-created",
+                    require(getattr(o, "serial", None) == model[c][0] and is_a(o, c), "second-instance-created",
                             f"{where}: {names[sel(ci)]} already has a live instance (serial {model[c][0]}), got serial {getattr(o, 'serial', None)} of class {type(o).__name__}")
                     require(ninit[0] == n0, "init-ran-again", where)
                     require(o.args == model[c][1], "stored-args-changed", f"{where}: args now {o.args}, first call's were {model[c][1]}")
                 else:
-                    require(type(o) is c, "wrong-class-returned", f"{where}: got {type(o).__name__}")
+                    require(is_a(o, c), "wrong-class-returned", f"{where}: got {type(o).__name__}")
                     require(ninit[0] == n0 + 1 and o.serial == (ninit[0] if not nested_new else ninit[0] - 1), "init-count", f"{where}: __init__ ran {ninit[0] - n0} times / an old instance (serial {getattr(o, 'serial', None)}) was returned")
                     exp_args = (tuple(a), dict(k)) if c is not T else (tuple(a), {"k": k["k"]} if k.get("k", 0) != 0 else {})
                     if c is Z:
@@ -312,7 +331,7 @@ def check_case(case):
             for c, (serial, args) in model.items():
                 n0 = ninit[0]
                 o = c()
-                ok = getattr(o, "serial", None) == serial and ninit[0] == n0 and type(o) is c
+                ok = getattr(o, "serial", None) == serial and ninit[0] == n0 and is_a(o, c)
                 del o
                 require(ok, "other-class-instance-lost", f"{where}: the live instance of {c.__name__} (serial {serial}) was replaced or re-initialised")
     finally:
